@@ -15,6 +15,7 @@
 import TE.Driver.Fam
 import TE.Model.Agg
 import TE.Model.Fams
+import TE.Model.FamsCache
 import TE.Spec.Agg
 namespace TE.Driver
 open TE TE.Agg
@@ -118,22 +119,23 @@ def fnAuc (a : Args) : Except Err String := do
   let (xr, yr) ← aucCheck x y nTasks
   pure (showVecQ (auc (a.bool "reorder" false) xr yr))
 
-def appendRows (s new : Mat) : Mat := if s.isEmpty then new else List.zipWith (· ++ ·) s new
-
+/-- `AUC` runs the typed cache-all class `Fams.aucC` (TE/Model/FamsCache.lean): a sample is the
+    column of points `(x, y)` of all tasks at one index. -/
 def packAUC (cfg : Args) : Except String Pack :=
   match cfg.nat? "n_tasks" with
   | .error e => .error e
   | .ok nt =>
   let nTasks := nt.getD 1
   let reorder := cfg.bool "reorder" true
-  .ok ⟨Mat × Mat, {
-    init := ([], [])
+  let m := (Fams.aucC reorder nTasks).cls
+  .ok ⟨Bool × List Fams.TaskPair, {
+    init := m.init
     upd := fun s a => do
       let x ← liftP (a.tensor "x"); let y ← liftP (a.tensor "y")
       let (xr, yr) ← aucCheck x y nTasks
-      pure (appendRows s.1 xr, appendRows s.2 yr)
-    mrg := fun s ss => .ok (ss.foldl (fun a m => if m.1.isEmpty then a else (appendRows a.1 m.1, appendRows a.2 m.2)) s)
-    out := fun s => if s.1.isEmpty then .ok "0:" else .ok (showVecQ (auc reorder s.1 s.2)) }⟩
+      m.upd s (Fams.taskPairsOf (xr.headD []).length xr yr)
+    mrg := m.mrg
+    out := fun s => do pure (showVecQ (← m.out s)) }⟩
 
 /-! ### Covariance -/
 
@@ -234,17 +236,14 @@ def fnWasserstein (a : Args) : Except Err String := do
   let (x, y, xw, yw) ← wassArgs a "x" "y" "x_weights" "y_weights"
   pure (showVecQ [← wasserstein x y xw yw])
 
-/-- cache-all class: samples and weights of both distributions (missing weights are ones). -/
-def packWasserstein (_ : Args) : Except String Pack := pure ⟨(List Q × List Q) × (List Q × List Q), {
-  init := (([], []), ([], []))
+/-- cache-all class: the typed `Fams.wassCls` (weighted samples of both distributions; missing weights are ones). -/
+def packWasserstein (_ : Args) : Except String Pack := pure ⟨List (Q × Q) × List (Q × Q), {
+  init := Fams.wassCls.init
   upd := fun s a => do
     let (x, y, xw, yw) ← wassArgs a "new_samples_dist_1" "new_samples_dist_2" "new_weights_dist_1" "new_weights_dist_2"
-    let xw := xw.getD (x.map fun _ => 1); let yw := yw.getD (y.map fun _ => 1)
-    pure ((s.1.1 ++ x, s.1.2 ++ xw), (s.2.1 ++ y, s.2.2 ++ yw))
-  mrg := fun s ss => .ok (ss.foldl (fun a m => ((a.1.1 ++ m.1.1, a.1.2 ++ m.1.2), (a.2.1 ++ m.2.1, a.2.2 ++ m.2.2))) s)
-  out := fun s =>
-    if s.1.1.isEmpty then .error .value
-    else do pure (showVecQ [← wasserstein s.1.1 s.2.1 (some s.1.2) (some s.2.2)]) }⟩
+    Fams.wassCls.upd s ⟨x, y, xw, yw⟩
+  mrg := Fams.wassCls.mrg
+  out := fun s => do pure (showVecQ [← Fams.wassCls.out s]) }⟩
 
 /-! ### PSNR -/
 
@@ -278,7 +277,7 @@ def packPsnr (cfg : Args) : Except String Pack :=
   match dataRangeOf cfg with
   | .error _ => .error "bad data_range"
   | .ok dr =>
-  let m := psnrImpl dr
+  let m := Fams.psnrCls dr       -- typed class (TE/Model/FamsCache.lean)
   .ok ⟨PsnrS, {
     init := m.init
     upd := fun s a => do m.upd s (← psnrArgs a)
